@@ -264,12 +264,12 @@ def check_store(rec, S, C, lenses, cfg, chain, logp, inp, ball_inside, mode, tag
     for i in range(len(flat)):
         v = fscalar(S.chain.likelihood(list(flat[i])))
         # identical arithmetic on identical input -> identical value; 1e-10 only guards the interpolation spline
-        if not ((v == lp[i]) or abs(v - lp[i]) <= 1e-10 * max(1.0, abs(v))):
+        if not ((v == lp[i]) or (np.isfinite(v) and np.isfinite(lp[i]) and abs(v - lp[i]) <= 1e-10 * max(1.0, abs(v)))):   # (-inf only equals -inf)
             bad = (i, v, lp[i])
             break
         if has_closed_form(C, mode):
             r = ref_loglike(cfg, lenses, C, dict(zip(names, flat[i])), mode)
-            if not ((r == lp[i]) or abs(r - lp[i]) <= 1e-8 * max(1.0, abs(r))):
+            if not ((r == lp[i]) or (np.isfinite(r) and np.isfinite(lp[i]) and abs(r - lp[i]) <= 1e-8 * max(1.0, abs(r)))):
                 rec.check(False, "C15:log_prob_vs_closed_form",
                           "stored log-prob != closed-form likelihood evaluated at {param_names()[i]: sample[i]} (%s)" % tag,
                           dict(inp, sample=flat[i], names=names), lp[i], r)
@@ -282,7 +282,7 @@ def check_store(rec, S, C, lenses, cfg, chain, logp, inp, ball_inside, mode, tag
         idx = list(range(len(flat)))[::-1][:: max(1, len(flat) // 8)][:8]
         for i in idx:
             v = fscalar(S2.chain.likelihood(list(flat[i])))
-            if not ((v == lp[i]) or abs(v - lp[i]) <= 1e-9 * max(1.0, abs(v))):
+            if not ((v == lp[i]) or (np.isfinite(v) and np.isfinite(lp[i]) and abs(v - lp[i]) <= 1e-9 * max(1.0, abs(v)))):
                 rec.check(False, "C15:log_prob_history_dependent",
                           "stored log-prob != likelihood of a fresh, identically configured object at the stored sample (%s)" % tag,
                           dict(inp, sample=flat[i], names=names), lp[i], v)
